@@ -1478,11 +1478,24 @@ func postState(o *hx.Out, k int, r *prng.R, c *cand, decoded *transaction.Transa
 		} else {
 			o.Count("stale:attrfee-up:not-carried")
 		}
-		slack := max(tx.NetworkFee-c.calc, 0)
 		up := []int64{1, 1, int64(r.Range(1, 100000))}[r.Intn(3)]
 		if inv == "stale-contract" {
-			// around the point where the fee stops covering size + attribute fees
-			up = []int64{1, max(slack, 1), slack + 1, slack + 1 + int64(r.Range(0, 1000))}[r.Intn(4)]
+			// around the point where the network fee stops covering size + attribute fees: what is left for the
+			// witnesses now, divided by how often the raised fee is charged
+			left := max(tx.NetworkFee-c.need, 0)
+			mult := int64(0)
+			for _, a := range tx.Attributes {
+				if a.Type == t {
+					mult++
+				}
+			}
+			if t == transaction.ConflictsT {
+				mult *= int64(len(tx.Signers))
+			}
+			mult = max(mult, 1)
+			d := []int64{-1, 0, 1, 1, int64(r.Range(2, 5000)), -int64(r.Range(2, 5000))}[r.Intn(6)]
+			up = max((left+d+mult-1)/mult, 1)
+			o.Count(fmt.Sprintf("stale:attrfee-up:edge%+d", min(max(d, -2), 2)))
 		}
 		v := min(s.attrFeeOf(t)+up, 10_0000_0000)
 		s.pol.attrFee[t] = v
